@@ -195,7 +195,7 @@ PROPS["C04"] = {
                   "floors": {"C04.world": {"served-from-cache": 0.3, "composed-negative-from-cache": 0.15, "rfc8198-synthesis": 0.08, "ecs-question": 0.1}}},
         "lifetime": {"pkg": "./server", "run": "^TestVerifC04Lifetime$",
                      "tiers": {"quick": T(2500, 8, timeout=600), "thorough": T(80000, 12, timeout=3400)},
-                     "floors": {"C04.lifetime": {"late-in-life": 0.15, "composed-from-cache": 0.05, "late-prefetch-judged": 0.05, "alias-over-cached-denial": 0.01}}},
+                     "floors": {"C04.lifetime": {"late-in-life": 0.15, "composed-from-cache": 0.05, "late-prefetch-judged": 0.05, "alias-over-cached-denial": 0.03}}},
     },
 }
 
